@@ -20,6 +20,18 @@ type c20Event struct {
 	site   string
 }
 
+// c20Deadlocks counts the steps that did not come back in this run of the harness. Five seconds are
+// granted to a step; once two steps have been given up (each is reported as a deadlock), later ones
+// are given up after 300 ms, so that a tree in which most schedules block is reported in minutes.
+var c20Deadlocks int
+
+func c20Patience() time.Duration {
+	if c20Deadlocks >= 2 {
+		return 300 * time.Millisecond
+	}
+	return 5 * time.Second
+}
+
 func c20Exec(input sx.S) (obs sx.S) {
 	il := sx.List(input)
 	threads := sx.List(il[1])[1:]
@@ -55,7 +67,8 @@ func c20Exec(input sx.S) (obs sx.S) {
 				site[i] = e.site
 			}
 			return true
-		case <-time.After(5 * time.Second):
+		case <-time.After(c20Patience()):
+			c20Deadlocks++
 			return false
 		}
 	}
@@ -76,11 +89,7 @@ func c20Exec(input sx.S) (obs sx.S) {
 			case "sub":
 				root.ResolveString(subRequest(tl[1:]), "", nil)
 			case "pub":
-				ev := &evObj{}
-				for _, x := range sx.List(tl[2]) {
-					ev.vals = append(ev.vals, sx.Int(x))
-				}
-				cnts[i], _ = root.AddEvent("e"+tl[1].(string), ev)
+				cnts[i], _ = root.AddEvent("e"+tl[1].(string), evOf(tl[2]))
 			case "unsub":
 				cnts[i] = root.Unsubscribe("e" + tl[1].(string))
 			}
